@@ -29,23 +29,67 @@ def sum_values(xs):
     return sum_values(xs[:-1]) + xs[-1].nValue
 
 
+@spec(recursive=True, sig=[TupleOf(Obj(CTxIn))], ret=Int)
+def sigops_ins(xs):
+    """legacy (inaccurate) signature operations of the input scripts"""
+    if len(xs) == 0:
+        return 0
+    return sigops_ins(xs[:-1]) + sigops_from(xs[-1].scriptSig, 0, 0xff, False)
+
+
+@spec(recursive=True, sig=[TupleOf(Obj(CTxOut))], ret=Int)
+def sigops_outs(xs):
+    if len(xs) == 0:
+        return 0
+    return sigops_outs(xs[:-1]) + sigops_from(xs[-1].scriptPubKey, 0, 0xff, False)
+
+
 @spec
+def tx_sigops(tx):
+    return sigops_ins(tx.vin) + sigops_outs(tx.vout)
+
+
+@spec(recursive=True, sig=[TupleOf(Obj(CTransaction))], ret=Int)
+def block_sigops(txs):
+    """legacy signature operations of all transactions, the coinbase included"""
+    if len(txs) == 0:
+        return 0
+    return block_sigops(txs[:-1]) + tx_sigops(txs[-1])
+
+
+@spec(opaque=True, sig=[TupleOf(Obj(CTxOut)), Int], ret=Bool)
 def values_ok(xs, max_money):
     """every output value and every running total lies in the money range"""
     return forall(range(0, len(xs)), lambda k: 0 <= xs[k].nValue and xs[k].nValue <= max_money
                   and 0 <= sum_values(xs[:k + 1]) and sum_values(xs[:k + 1]) <= max_money)
 
 
-@spec
+@spec(opaque=True, sig=[TupleOf(Obj(CTxIn))], ret=Bool)
 def distinct_prevouts(xs):
     """no outpoint is spent twice"""
     return forall(range(0, len(xs)), lambda b: forall(range(0, b), lambda a:
                   enc_outpoint(xs[a].prevout) != enc_outpoint(xs[b].prevout)))
 
 
-@spec
+@spec(opaque=True, sig=[TupleOf(Obj(CTxIn))], ret=Bool)
 def no_null_prevout(xs):
     return forall(range(0, len(xs)), lambda k: not null_outpoint(xs[k].prevout))
+
+
+@spec
+def tx_ok_but_duplicates(tx, max_money):
+    """tx_ok without the no-double-spend clause"""
+    return (len(tx.vin) > 0 and len(tx.vout) > 0
+            and len(enc_tx(tx, False)) <= MAX_BLOCK_SIZE
+            and values_ok(tx.vout, max_money)
+            and ((is_coinbase_tx(tx) and 2 <= len(tx.vin[0].scriptSig) and len(tx.vin[0].scriptSig) <= 100)
+                 or ((not is_coinbase_tx(tx)) and no_null_prevout(tx.vin))))
+
+
+def ref_tx_ok(tx, max_money):
+    """executable form of the whole rule (used by the bounded unit)"""
+    keys = [bytes(i.prevout.hash) + i.prevout.n.to_bytes(4, 'little') for i in tx.vin]
+    return bool(tx_ok_but_duplicates(tx, max_money)) and len(set(keys)) == len(keys)
 
 
 @spec
@@ -57,3 +101,95 @@ def tx_ok(tx, max_money):
             and distinct_prevouts(tx.vin)
             and ((is_coinbase_tx(tx) and 2 <= len(tx.vin[0].scriptSig) and len(tx.vin[0].scriptSig) <= 100)
                  or ((not is_coinbase_tx(tx)) and no_null_prevout(tx.vin))))
+
+
+@spec(opaque=True, sig=[Obj(CTransaction), Int], ret=Bool)
+def tx_rule(tx, max_money):
+    """tx_ok_but_duplicates as one atom (unfolded where its clauses are needed)"""
+    return tx_ok_but_duplicates(tx, max_money)
+
+
+@spec(opaque=True, sig=[TupleOf(Obj(CTransaction)), Int], ret=Bool)
+def all_txs_ok(txs, max_money):
+    """every transaction - the coinbase included - passes the transaction rule (duplicates clause aside)"""
+    return forall(range(0, len(txs)), lambda k: tx_rule(txs[k], max_money))
+
+
+@spec(opaque=True, sig=[TupleOf(Obj(CTransaction))], ret=Bool)
+def only_first_coinbase(txs):
+    return len(txs) > 0 and is_coinbase_tx(txs[0]) and forall(range(1, len(txs)), lambda k: not is_coinbase_tx(txs[k]))
+
+
+# ---- executable reference of the whole block rule (bounded unit) -------------------------
+def _has_witness_data(tx):
+    return any(len(w.scriptWitness.stack) > 0 for w in tx.wit.vtxinwit)
+
+
+def ref_script_sigops(script):
+    """iterative form of sigops_from(script, 0, 0xff, False) for long scripts"""
+    from specs.script import op_ok, next_i
+    s = bytes(script)
+    i = 0
+    n = 0
+    while i < len(s) and op_ok(s, i):
+        if s[i] in (0xac, 0xad):
+            n += 1
+        elif s[i] in (0xae, 0xaf):
+            n += 20
+        i = next_i(s, i)
+    return n
+
+
+def ref_tx_sigops(tx):
+    return (sum(ref_script_sigops(i.scriptSig) for i in tx.vin)
+            + sum(ref_script_sigops(o.scriptPubKey) for o in tx.vout))
+
+
+def ref_commitment_ok(vtx):
+    """BIP141: the last coinbase output whose script is at least 38 bytes and starts with the magic
+    commits to hash256(witness root || nonce); the nonce is the single 32-byte coinbase witness item"""
+    cb = vtx[0]
+    if len(cb.wit.vtxinwit) < 1:
+        return False
+    stack = cb.wit.vtxinwit[0].scriptWitness.stack
+    if len(stack) != 1 or len(stack[0]) != 32:
+        return False
+    pos = None
+    for k in range(len(cb.vout)):
+        s = bytes(cb.vout[k].scriptPubKey)
+        if len(s) >= 38 and s[:6] == COMMIT_MAGIC:
+            pos = k
+    if pos is None:
+        return False
+    leaves = (ZERO32,) + tuple(wtxid_of(t) for t in vtx[1:])
+    return bytes(cb.vout[pos].scriptPubKey)[6:38] == hash256(merkle_root(leaves) + bytes(stack[0]))
+
+
+def ref_block_ok(block, fCheckPoW, fCheckMerkleRoot, cur_time, max_money, pow_ok):
+    """the block rule of the property, clause by clause; pow_ok(hash_int, nBits) is the chain's rule"""
+    vtx = tuple(block.vtx)
+    if fCheckPoW and not pow_ok(le_int(blockhash_of(block)), block.nBits):
+        return False
+    if block.nTime > cur_time + 7200:
+        return False
+    if len(vtx) == 0:
+        return False
+    if len(enc_block(block, False)) > MAX_BLOCK_SIZE:
+        return False
+    if 3 * len(enc_block(block, False)) + len(enc_block(block, True)) > MAX_BLOCK_WEIGHT:
+        return False
+    if not is_coinbase_tx(vtx[0]) or any(is_coinbase_tx(t) for t in vtx[1:]):
+        return False
+    if not all(ref_tx_ok(t, max_money) for t in vtx):
+        return False
+    ids = [txid_of(t) for t in vtx]
+    if len(set(ids)) != len(ids):
+        return False
+    if sum(ref_tx_sigops(t) for t in vtx) > MAX_BLOCK_SIGOPS:
+        return False
+    if fCheckMerkleRoot:
+        if bytes(block.hashMerkleRoot) != merkle_root(tuple(ids)):
+            return False
+        if any(_has_witness_data(t) for t in vtx) and not ref_commitment_ok(vtx):
+            return False
+    return True
